@@ -90,3 +90,27 @@ Definition spec_ok (sig : nat -> params) (reqs : list request) (dflt : option ca
           results_ok log results
       end
   end.
+
+(** ** autoprint: the return value of an execution is printed iff its task is an
+    autoprint task and the invocation is identical to a directly requested one
+    (the implicitly chosen default task counts as requested) *)
+Fixpoint positions_where {A} (f : A -> bool) (i : nat) (l : list A) : list nat :=
+  match l with
+  | [] => []
+  | x :: l' => if f x then i :: positions_where f (S i) l' else positions_where f (S i) l'
+  end.
+
+Definition root_of (c : call) : flat := match c with Call t a k _ _ => (t, a, k) end.
+
+Definition print_ok (same : entry -> entry -> bool) (sig : nat -> params) (autop : nat -> bool)
+           (reqs : list request) (dflt : option call) (dedupe_on : bool) (keep : list entry -> list entry)
+           (shown : list nat) : bool :=
+  let calls := requested reqs dflt in
+  match all_some (map (eff sig) (dfs calls)), all_some (map (eff sig) (map root_of calls)) with
+  | Some order, Some direct =>
+      list_eqb Nat.eqb
+               (positions_where (fun e => autop (fst e) && existsb (same e) direct) 0
+                                (if dedupe_on then keep order else order))
+               shown
+  | _, _ => true
+  end.
